@@ -25,6 +25,11 @@ namespace Cstl.HeapL
 open Cstl.TreeL
 open Cstl.Heap (fls)
 
+/-- `__cstl_bintree_cmp(&h->bt, a, b)` with the comparison function of the harness: the sign of
+the key difference (used by the translation of the C source, Cstl/Gen/HeapC.lean) -/
+def cmpKey (m : TM) (a b : Nat) : Int :=
+  if m.key a > m.key b then 1 else if m.key a < m.key b then -1 else 0
+
 /-! ### cstl_heap_find -/
 
 /-- `for (…; p != NULL && b != 0; b >>= 1) { if ((loc & b) == 0) p = p->l; else p = p->r; }` -/
